@@ -87,7 +87,18 @@ structure Leaf where
   dev : ID
   pid : Nat
   job : Nat
+  /-- the packet carries key material (`FlagCrypt`): only the `SvComplete` answer to a hello does
+  (`keyHostSync`); such a packet is never packed with others (`Session.next`, `nextPacket`) -/
+  crypt : Bool := false
 deriving DecidableEq, Repr, Inhabited
+
+/-- what one `Session.next` call takes from a non-empty queue (budgets aside): a packet carrying
+key material goes out alone, and packing stops in front of one (it is carried over) -/
+def takeOwn : List Leaf → List Leaf × List Leaf
+  | [] => ([], [])
+  | l :: ls =>
+    if l.crypt then ([l], ls)
+    else (l :: ls.takeWhile (fun x => !x.crypt), ls.dropWhile (fun x => !x.crypt))
 
 /-! ### server state -/
 
@@ -193,7 +204,13 @@ def notifySub (s : Sess) (n : Sub) : List Ev × Except Err Unit :=
 /-! ### Session.next (server side, not in channel mode) as far as routing is concerned -/
 
 /-- `next(false)`: everything queued, or a keep-alive naming the Session. -/
-def nextAll (s : Sess) : List Leaf := if s.q.isEmpty then [{ dev := s.id, pid := 0, job := 0 }] else s.q
+def nextAll (s : Sess) : List Leaf :=
+  if s.q.isEmpty then [{ dev := s.id, pid := 0, job := 0 }] else (takeOwn s.q).1
+
+/-- the Session after that call: what was not taken stays queued -/
+def Sess.kept (s : Sess) : Sess := { s with q := (takeOwn s.q).2 }
+
+@[simp] theorem Sess.kept_id (s : Sess) : s.kept.id = s.id := rfl
 
 /-! ### Server.Session / Server.Remove (c2/server.go) -/
 
@@ -248,7 +265,7 @@ def registerReply (n : Sub) : Leaf := { dev := n.dev, pid := svRegister, job := 
 `SvComplete` answer unless the packet came through a proxy (`FlagProxy`). -/
 def newSess (n : Sub) : Sess :=
   if hasFlag n.flags flagProxy then { id := n.dev, q := [] }
-  else { id := n.dev, q := [{ dev := n.dev, pid := svComplete, job := n.job }] }
+  else { id := n.dev, q := [{ dev := n.dev, pid := svComplete, job := n.job, crypt := true }] }
 
 /-- `Listener.talkSub(a, n, o)`. Returns the new table, the events and the result. -/
 def talkSub (hash : ID → Nat) (closing : Bool) (t : Tbl) (n : Sub) (o : Bool) :
@@ -270,7 +287,7 @@ def talkSub (hash : ID → Nat) (closing : Bool) (t : Tbl) (n : Sub) (o : Bool) 
       | .error x => (t.set i s, ev ++ e, .error x)
       | .ok () =>
         if o then (t.set i s, ev ++ e, .ok { host := some s.id, key := i, reply := [] })
-        else (t.set i { s with q := [] }, ev ++ e, .ok { host := some s.id, key := i, reply := s.q })
+        else (t.set i s.kept, ev ++ e, .ok { host := some s.id, key := i, reply := (takeOwn s.q).1 })
   | .own s =>
     let ev := [Ev.touch s.id n.dev] ++ keyEv s n
     let (e, r) := receiveSub (some s) n
@@ -278,7 +295,7 @@ def talkSub (hash : ID → Nat) (closing : Bool) (t : Tbl) (n : Sub) (o : Bool) 
     | .error x => (t, ev ++ e, .error x)
     | .ok () =>
       if o then (t, ev ++ e, .ok { host := some s.id, key := i, reply := [] })
-      else (t.set i { s with q := [] }, ev ++ e, .ok { host := some s.id, key := i, reply := s.q })
+      else (t.set i s.kept, ev ++ e, .ok { host := some s.id, key := i, reply := (takeOwn s.q).1 })
 
 /-! ### conn.resolve (tags) -/
 
@@ -306,8 +323,8 @@ def resolveLoop (host : ID) : Nat → List Nat → Tbl → Conn → Tbl × List 
             let (t', e, r) := resolveLoop host (idx + 1) rest t c
             (t', Ev.tagTouch v.id tag :: e, r)
           else
-            let (t', e, r) := resolveLoop host (idx + 1) rest (t.set tag { v with q := [] })
-              { c with add := c.add ++ v.q }
+            let (t', e, r) := resolveLoop host (idx + 1) rest (t.set tag v.kept)
+              { c with add := c.add ++ (takeOwn v.q).1 }
             (t', Ev.tagTouch v.id tag :: Ev.tagOut host v.id tag :: e, r)
 
 /-! ### conn.processMultiple
@@ -336,7 +353,7 @@ def multiLoop (hash : ID → Nat) (closing : Bool) :
     else if hs.id == v.dev then
       let (e, _) := notifySub hs v              -- errors are logged and ignored
       let out := nextAll hs
-      let (t', hs', e', r) := multiLoop hash closing x vs { hs with q := [] } t
+      let (t', hs', e', r) := multiLoop hash closing x vs hs.kept t
       (t', hs', e ++ e', match r with
         | .ok (l, k) => .ok (out ++ l, k)
         | .error z => .error z)
@@ -379,7 +396,7 @@ def process (hash : ID → Nat) (closing : Bool) (hs : Sess) (t : Tbl) (n : Pkt)
     let e := keyEv hs n.hd ++ e
     match r with
     | .error z => (t, hs, e, .error z)
-    | .ok () => (t, { hs with q := [] }, e, .ok (nextAll hs ++ c.add, c.subs))
+    | .ok () => (t, hs.kept, e, .ok (nextAll hs ++ c.add, c.subs))
 
 /-- everything `talk` does once it holds the Session `s` of the sender (`ok`: it existed before);
 `t` already contains `s` in slot `i`. -/
